@@ -618,10 +618,19 @@ func curatedSyn() []*SynGrammar {
 		// a reduce/reduce conflict between productions 9 and 10 (one and two digits)
 		synG([]string{"S", "A", "B"}, []string{"x1", "x2", "x3", "x4", "x5", "x6", "a"},
 			P(0, T(0)), P(0, T(1)), P(0, T(2)), P(0, T(3)), P(0, T(4)), P(0, T(5)), P(0, N(1)), P(0, N(2)), P(1, T(6)), P(2, T(6))),
+		// a reduce/reduce conflict between an alternative of a second, later rule of A and B in between
+		splitRR(),
 		// long right-recursive chains (a cascade of reductions at the end of the input)
 		synG([]string{"Type", "Base"}, []string{"name", "\"->\"", "\"(\"", "\")\""},
 			P(0, N(1)), P(0, N(1), T(1), N(0)), P(1, T(0)), P(1, T(2), N(0), T(3))),
 	}
+}
+
+// splitRR: S : A | B ; A : a ; B : x ; A : x ; - production numbers follow the file, not the heads
+func splitRR() *SynGrammar {
+	g := &SynGrammar{NTs: []string{"S", "A", "B"}, Terms: []string{"a", "x"}, IsLit: []bool{false, false}, Split: true}
+	g.Prods = []SynProd{P(0, N(1)), P(0, N(2)), P(1, T(0)), P(2, T(1)), P(1, T(1))}
+	return g
 }
 
 // splitG marks a grammar whose Prods are written in file order with non-adjacent rules for one
